@@ -748,7 +748,7 @@ package rockredis
 //@ property C08 C09
 //@ func (db *RockDB) GetCollVersionKey(ts int64, dt byte, key []byte, useLock bool) (collVerKeyInfo, error)
 //@   trusted reads the collection meta from the store
-//@   ensures result1 == nil ==> (result0.Expired <==> ghost(collexpired, db) == 1)
+//@   ensures result1 == nil ==> (result0.Expired <==> ghost(collexpired, db) == 1) && (result0.OldHeader.UserData == nil <==> ghost(collabsent, db) == 1)
 //@   ensures result1 == nil ==> result0.OldHeader != nil && (result0.OldHeader.Ver == 0 || result0.OldHeader.Ver == 1) && smallTK(result0.Table, result0.VerKey)
 //@   ensures result1 == nil && (dt == SetType || dt == ZSetType) ==> (len(result0.OldHeader.UserData) == 0 || len(result0.OldHeader.UserData) >= 8) && setSize(result0.OldHeader.UserData) >= 0 && setSize(result0.OldHeader.UserData) < 4611686018427387904
 //@   ensures result1 == nil && dt == HashType ==> (len(result0.OldHeader.UserData) == 0 || len(result0.OldHeader.UserData) == 8) && storedSize(result0.OldHeader.UserData) >= 0 && storedSize(result0.OldHeader.UserData) < 4611686018427387904
@@ -790,13 +790,13 @@ package rockredis
 //@   requires db != nil && db.wb != nil && ghost(wbputs, db.wb) == 0 && ghost(wbdels, db.wb) == 0
 // a member counted as new / removed must not already be buffered by this same command (reads see the store, not the batch)
 //@   callassert Delete bst(arg0, ghost(wbver, arg0), kid(arg1)) == bst(arg0, old(ghost(wbver, db.wb)), kid(arg1))
-//@   ensures result1 == nil && len(args) > 0 ==> result0 == ghost(hits, db) - old(ghost(hits, db)) && ghost(sizedelta, db) == -result0
-//@   ensures result1 == nil && len(args) > 0 ==> ghost(commits, db.rockEng) == old(ghost(commits, db.rockEng)) + 1 && ghost(cdels, db.rockEng) >= result0
+//@   ensures result1 == nil && len(args) > 0 && ghost(collexpired, db) == 0 && ghost(collabsent, db) == 0 ==> result0 == ghost(hits, db) - old(ghost(hits, db)) && ghost(sizedelta, db) == -result0
+//@   ensures result1 == nil && len(args) > 0 && ghost(collexpired, db) == 0 && ghost(collabsent, db) == 0 ==> ghost(commits, db.rockEng) == old(ghost(commits, db.rockEng)) + 1 && ghost(cdels, db.rockEng) >= result0
 //@   ensures len(args) == 0 ==> result0 == 0 && result1 == nil && ghost(commits, db.rockEng) == old(ghost(commits, db.rockEng))
 //@   ensures len(args) > MAX_BATCH_NUM ==> result1 == errTooMuchBatchSize && ghost(commits, db.rockEng) == old(ghost(commits, db.rockEng))
 //@   ensures ghost(wbputs, db.wb) == 0 && ghost(wbdels, db.wb) == 0
 // an expired collection is dead (C10): removing from it finds nothing and writes nothing
-//@   ensures result1 == nil && ghost(collexpired, db) == 1 ==> result0 == 0 && ghost(commits, db.rockEng) == old(ghost(commits, db.rockEng))
+//@   ensures result1 == nil && (ghost(collexpired, db) == 1 || ghost(collabsent, db) == 1) ==> result0 == 0 && ghost(commits, db.rockEng) == old(ghost(commits, db.rockEng))
 //@   modifies ghost(wbputs, _), ghost(wbdels, _), ghost(commits, _), ghost(cputs, _), ghost(cdels, _), ghost(misses, db), ghost(hits, db), ghost(sizedelta, db), ghost(newsize, db), ghost(tblcnt, db), ghost(expdels, _), alloftype(headerMetaValue), ghost(wbver, _), ghost(cver, _), ghost(sizeupds, db), ghost(readerrs, db), ghost(werrs, _)
 //@   loop 1
 //@   invariant 0 <= i && i <= len(args) && num == ghost(hits, db) - old(ghost(hits, db)) && num >= 0 && num <= i && ghost(wbdels, wb) == num && ghost(wbputs, wb) == 0
@@ -805,12 +805,12 @@ package rockredis
 // HDEL: the reply and the size decrease are the number of fields found in the store
 //@ func (db *RockDB) HDel(ts int64, key []byte, args ...[]byte) (int64, error)
 //@   requires db != nil && db.wb != nil && db.indexMgr != nil
-//@   ensures result1 == nil && len(args) > 0 ==> result0 == ghost(hits, db) - old(ghost(hits, db)) && ghost(sizedelta, db) == -result0
+//@   ensures result1 == nil && len(args) > 0 && ghost(collexpired, db) == 0 && ghost(collabsent, db) == 0 ==> result0 == ghost(hits, db) - old(ghost(hits, db)) && ghost(sizedelta, db) == -result0
 //@   ensures len(args) == 0 ==> result0 == 0 && result1 == nil
 //@   ensures result1 == errTooMuchBatchSize || len(args) == 0 ==> ghost(wbputs, db.wb) == old(ghost(wbputs, db.wb)) && ghost(wbdels, db.wb) == old(ghost(wbdels, db.wb)) && ghost(commits, db.rockEng) == old(ghost(commits, db.rockEng))
 //@   ensures len(args) > MAX_BATCH_NUM ==> result1 == errTooMuchBatchSize
 // an expired collection is dead (C10): removing from it finds nothing and writes nothing
-//@   ensures result1 == nil && ghost(collexpired, db) == 1 ==> result0 == 0 && ghost(wbver, db.wb) == old(ghost(wbver, db.wb))
+//@   ensures result1 == nil && (ghost(collexpired, db) == 1 || ghost(collabsent, db) == 1) ==> result0 == 0 && ghost(wbver, db.wb) == old(ghost(wbver, db.wb))
 //@   modifies ghost(wbputs, _), ghost(wbdels, _), ghost(commits, _), ghost(cputs, _), ghost(cdels, _), ghost(misses, db), ghost(hits, db), ghost(sizedelta, db), ghost(newsize, db), ghost(tblcnt, db), ghost(expdels, _), alloftype(headerMetaValue), ghost(wbver, _), ghost(cver, _), ghost(sizeupds, db), ghost(readerrs, db), ghost(werrs, _)
 //@   loop 1
 //@   invariant 0 <= i && i <= len(args) && num == ghost(hits, db) - old(ghost(hits, db)) && num >= 0 && num <= i
@@ -908,13 +908,13 @@ package rockredis
 //@   requires db != nil && db.wb != nil && ghost(wbputs, db.wb) == 0 && ghost(wbdels, db.wb) == 0
 // a member counted as new / removed must not already be buffered by this same command (reads see the store, not the batch)
 //@   callassert zDelItem bst(arg4, ghost(wbver, arg4), zmKid(arg1, arg2, arg3)) == bst(arg4, old(ghost(wbver, db.wb)), zmKid(arg1, arg2, arg3))
-//@   ensures result1 == nil && len(members) > 0 ==> result0 == ghost(hits, db) - old(ghost(hits, db)) && ghost(sizedelta, db) == -result0
-//@   ensures result1 == nil && len(members) > 0 ==> ghost(commits, db.rockEng) == old(ghost(commits, db.rockEng)) + 1 && ghost(cdels, db.rockEng) >= 2 * result0
+//@   ensures result1 == nil && len(members) > 0 && ghost(collexpired, db) == 0 && ghost(collabsent, db) == 0 ==> result0 == ghost(hits, db) - old(ghost(hits, db)) && ghost(sizedelta, db) == -result0
+//@   ensures result1 == nil && len(members) > 0 && ghost(collexpired, db) == 0 && ghost(collabsent, db) == 0 ==> ghost(commits, db.rockEng) == old(ghost(commits, db.rockEng)) + 1 && ghost(cdels, db.rockEng) >= 2 * result0
 //@   ensures len(members) == 0 ==> result0 == 0 && result1 == nil && ghost(commits, db.rockEng) == old(ghost(commits, db.rockEng))
 //@   ensures len(members) > MAX_BATCH_NUM ==> result1 == errTooMuchBatchSize && ghost(commits, db.rockEng) == old(ghost(commits, db.rockEng))
 //@   ensures ghost(wbputs, db.wb) == 0 && ghost(wbdels, db.wb) == 0
 // an expired collection is dead (C10): removing from it finds nothing and writes nothing
-//@   ensures result1 == nil && ghost(collexpired, db) == 1 ==> result0 == 0 && ghost(commits, db.rockEng) == old(ghost(commits, db.rockEng))
+//@   ensures result1 == nil && (ghost(collexpired, db) == 1 || ghost(collabsent, db) == 1) ==> result0 == 0 && ghost(commits, db.rockEng) == old(ghost(commits, db.rockEng))
 //@   modifies ghost(wbputs, _), ghost(wbdels, _), ghost(wbver, _), ghost(commits, _), ghost(cputs, _), ghost(cdels, _), ghost(misses, db), ghost(hits, db), ghost(sizedelta, db), ghost(newsize, db), ghost(tblcnt, db), ghost(expdels, _), alloftype(headerMetaValue), ghost(cver, _), ghost(sizeupds, db), ghost(readerrs, db), ghost(werrs, _)
 //@   loop 1
 //@   invariant 0 <= i && i <= len(members) && num == ghost(hits, db) - old(ghost(hits, db)) && num >= 0 && num <= i && ghost(wbdels, wb) == 2 * num && ghost(wbputs, wb) == 0
